@@ -155,12 +155,15 @@ CLAIMED = {
         "Coq slicing theorem + schedule-enumerating differential and relational check"),
     "C14": entry(
         "the change map is built completely before any line is touched (a failing RENUM leaves the listing as it was); lines below old-start are not in "
-        "the map; the j-th line at or above old-start maps to new-start + j*step <= 65529; the renumbered listing is rebuilt in ascending order (Props/C14.v).",
+        "the map; the j-th line at or above old-start maps to new-start + j*step <= 65529; the renumbered listing is rebuilt in ascending order; a line is "
+        "rewritten by replacing character ranges of its listed text, and for ranges that follow one another every character outside them is copied in place; "
+        "a line without operands keeps its tokens; RENUM refuses a program with compile errors (Props/C14.v, Proofs/Renum.v, Splice.v).",
         "link-clean programs with every referencing form, non-ASCII text before operands, line 0 and omitted operands renumbered with boundary and random "
         "argument triples on model and crate; monitors check the numbering formula, that only line-number operands changed (token-wise), that failure "
         "leaves the listing byte-identical, and that the renumbered program runs identically modulo reported line numbers.",
-        "PARTIAL: that the text splice rewrites exactly the line-number operands and nothing else is decided by the monitor, not proved.",
-        "Coq theorems on the change map + differential and relational (before/after) check"),
+        "PARTIAL: that the replaced ranges are exactly the operands' columns, in ascending order, and that the fresh scan of the rewritten text returns the "
+        "other tokens unchanged is decided by the monitor, not proved.",
+        "Coq theorems on the change map and on the text splice + differential and relational (before/after) check"),
     "C15": entry(
         "the stored lines are an ordered finite map: a numbered line inserts or replaces and nothing else changes, a bare number deletes, DELETE a-b removes "
         "exactly the inclusive range, iterating Listing::list_line as the runtime does yields exactly the lines of the range in ascending order; in every state "
